@@ -20,19 +20,21 @@ RULE = ('Enumerated: every multiset of the seven legal eligibility row classes o
         '1..4 (thorough), crossed with 9 size settings (none; (1,1),(1,2),(2,3),(3,9) for either group) x '
         '5 geo-ratio tolerances (None, 0.01, 0.5, 1.0, 2.0); random class vectors on 4-6 (quick) / 5-8 '
         '(thorough) geos with random settings incl. both size ranges; class vectors on 3-6 geos with n_geos_max / share / '
-        'budget constraints that drop assignable geos before the design space is formed. For each (multiset, setting): '
+        'budget constraints that drop assignable geos before the design space is formed; class vectors on 20-45 geos where '
+        'count_max_designs() is compared with an exact generating-function count (no listing possible). For each (multiset, setting): '
         'count_max_designs() vs the oracle enumeration; for every third setting also the full generator '
         'listing (distinct pairs, no duplicates). Non-trivial: oracle count > 0 and >= 2 row classes '
         'present; distinct by (class multiset, setting).')
 ASSUMPTIONS = ['in the enumerated part the admitted set equals the assignable geos; the "dropped" cases add n_geos_max / share / budget constraints and count over the observed geos_within_constraints',
                'geo-ratio bound evaluated in exact rational arithmetic of the float tolerance']
 EXHAUSTIVE = {'quick': True, 'thorough': True}
-MINIMA = {'quick': {'settings': 4000, 'listings': 1200, 'search_bound_checks': 20, 'settings_with_dropped_geos': 100, 'distinct_nontrivial': 1500},
-          'thorough': {'settings': 20000, 'listings': 6000, 'search_bound_checks': 100, 'settings_with_dropped_geos': 700, 'distinct_nontrivial': 8000}}
+MINIMA = {'quick': {'settings': 4000, 'listings': 1200, 'search_bound_checks': 20, 'settings_with_dropped_geos': 100, 'large_settings': 100, 'distinct_nontrivial': 1500},
+          'thorough': {'settings': 20000, 'listings': 6000, 'search_bound_checks': 100, 'settings_with_dropped_geos': 700, 'large_settings': 1000, 'distinct_nontrivial': 8000}}
 MAXG = {'quick': 3, 'thorough': 4}
 N_RANDOM = {'quick': 96, 'thorough': 640}
 N_SEARCH = {'quick': 32, 'thorough': 160}
 N_DROPPED = {'quick': 96, 'thorough': 640}
+N_LARGE = {'quick': 48, 'thorough': 400}
 CLASSES = ['c_fixed', 't_fixed', 'x_fixed', 'ct', 'cx', 'tx', 'ctx']
 SIZES = [None, (1, 1), (1, 2), (2, 3), (3, 9)]
 SIZE_SETTINGS = [(None, None)] + [(s, None) for s in SIZES[1:]] + [(None, s) for s in SIZES[1:]]
@@ -47,7 +49,7 @@ def all_multisets(maxg):
 
 
 def n_cases(tier):
-  return len(all_multisets(MAXG[tier])) + N_RANDOM[tier] + N_SEARCH[tier] + N_DROPPED[tier]
+  return len(all_multisets(MAXG[tier])) + N_RANDOM[tier] + N_SEARCH[tier] + N_DROPPED[tier] + N_LARGE[tier]
 
 
 def gen_case(tier, seed, idx):
@@ -58,7 +60,9 @@ def gen_case(tier, seed, idx):
     return {'tier': tier, 'seed': seed, 'idx': idx, 'kind': 'random'}
   if idx < len(ms) + N_RANDOM[tier] + N_SEARCH[tier]:
     return {'tier': tier, 'seed': seed, 'idx': idx, 'kind': 'search'}
-  return {'tier': tier, 'seed': seed, 'idx': idx, 'kind': 'dropped'}
+  if idx < len(ms) + N_RANDOM[tier] + N_SEARCH[tier] + N_DROPPED[tier]:
+    return {'tier': tier, 'seed': seed, 'idx': idx, 'kind': 'dropped'}
+  return {'tier': tier, 'seed': seed, 'idx': idx, 'kind': 'large'}
 
 
 def prepare(tier):
@@ -234,6 +238,84 @@ def run_dropped(spec, r, g):
           'case': sl.describe(case) if violations else None}
 
 
+def gf_count(truth, admitted, kw):
+  """Exact count by multiplying generating functions over (|T|, |C|): c_fixed -> c, t_fixed -> t,
+  cx -> 1 + c, tx -> 1 + t, ct -> c + t, ctx -> 1 + c + t; then summing the admissible (|T|, |C|) cells.
+  Independent of the code's nested binomial loops; exact integers; works for any number of geos."""
+  from fractions import Fraction
+  poly = {(0, 0): 1}
+  step = {'c_fixed': [(0, 1)], 't_fixed': [(1, 0)], 'cx': [(0, 0), (0, 1)], 'tx': [(0, 0), (1, 0)],
+          'ct': [(0, 1), (1, 0)], 'ctx': [(0, 0), (0, 1), (1, 0)]}
+  for gid in admitted:
+    nxt = collections.defaultdict(int)
+    for (a, b), v in poly.items():
+      for da, db in step[truth.row[gid]]:
+        nxt[(a + da, b + db)] += v
+    poly = nxt
+  tr, cr, gt = kw.get('treatment_geos_range'), kw.get('control_geos_range'), kw.get('geo_ratio_tolerance')
+  total = 0
+  for (a, b), v in poly.items():
+    if a < 1 or b < 1:
+      continue
+    if tr is not None and not tr[0] <= a <= tr[1]:
+      continue
+    if cr is not None and not cr[0] <= b <= cr[1]:
+      continue
+    if gt is not None:
+      lo, hi = sl.ratio_bounds(gt)
+      ratio = Fraction(b, a)
+      if not lo <= ratio <= hi:
+        if min(abs(float(ratio - lo)), abs(float(ratio - hi))) < 1e-12:
+          return None
+        continue
+    total += v
+  return total
+
+
+def run_large(spec, r, g):
+  """20-45 geos: too many designs to list; count_max_designs() vs the exact generating-function count."""
+  G = r.randrange(20, 46)
+  weights = r.choice([[('ctx', 10), ('cx', 1), ('tx', 1)], [('ctx', 3), ('cx', 3), ('tx', 2), ('ct', 1), ('c_fixed', 1), ('t_fixed', 1)],
+                      [('cx', 8), ('ctx', 2), ('tx', 1)], [('ctx', 1)]])
+  classes = [gen.weighted(r, weights) for _ in range(G)]
+  case = make_case(r, g, classes)
+  truth = sl.Truth(case)
+  counters = collections.Counter()
+  violations, fps = [], set()
+  admitted = {gid for gid, c in truth.row.items() if c != 'x_fixed'}
+  for j in range(4):
+    kw = {'n_test': 3, 'iroas': 1.0}
+    if r.random() < 0.5:
+      lo_ = r.randrange(1, G // 2)
+      kw['treatment_geos_range'] = (lo_, lo_ + r.randrange(0, G))
+    if r.random() < 0.4:
+      lo_ = r.randrange(1, G // 2)
+      kw['control_geos_range'] = (lo_, lo_ + r.randrange(0, G))
+    if r.random() < 0.5:
+      kw['geo_ratio_tolerance'] = r.choice([0.5, 1.0, 2.0, 0.1, 0.25])
+    built = util.call(sl.build, case, None, kw)
+    if not built.ok:
+      counters['build_rejected'] += 1
+      continue
+    want = gf_count(truth, admitted, kw)
+    if want is None:
+      continue
+    cnt = util.call(built.value[2].count_max_designs)
+    counters['large_settings'] += 1
+    label = '%d geos, classes %s, setting %r' % (G, dict(collections.Counter(classes)), kw)
+    if not cnt.ok:
+      violations.append({'clause': 'count-raises', 'mech': 'count-raises:' + cnt.exc_type, 'detail': '%s: %s' % (label, cnt.describe())})
+    elif int(cnt.value) != want:
+      violations.append({'clause': 'count-vs-exact', 'mech': 'count-mismatch-large',
+                         'detail': '%s: count_max_designs()=%d, exact generating-function count=%d' % (label, int(cnt.value), want)})
+    if want > 0:
+      fps.add(util.fp([sorted(classes), kw]))
+  return {'nontrivial': False, 'nontrivial_fps': sorted(fps), 'fp': 'large-%d' % spec['idx'], 'classes': ['large-%d' % (G // 10 * 10)],
+          'counters': dict(counters), 'violations': violations[:8],
+          'sample': {'kind': 'large class vector', 'n_geos': G, 'classes': dict(collections.Counter(classes))},
+          'case': None}
+
+
 def run_search(spec, r, g):
   G = r.randrange(2, 6)
   case = sl.make_case(r, g, G, allow=('size', 'ratio', 'volume', 'share', 'budget'), elig_extra='none')
@@ -265,4 +347,6 @@ def run_case(spec):
     return run_random(spec, r, g)
   if spec['kind'] == 'dropped':
     return run_dropped(spec, r, g)
+  if spec['kind'] == 'large':
+    return run_large(spec, r, g)
   return run_search(spec, r, g)
